@@ -31,6 +31,30 @@ Record kfl_raw := mkKR {
   kr_size : Z; kr_units : Z; kr_terms : Z; kr_monos : value; kr_dims : Z;
   kr_omin : option Q; kr_omax : option Q }.
 
+(* ---- second part: RTL, CDF, regulariser objects, premade verify_config ------ *)
+Record rtl_raw := mkTR {
+  tr_num : Z; tr_rank : Z; tr_size : Z; tr_omin : option Q; tr_omax : option Q;
+  tr_interp : value; tr_param : value; tr_init : value;
+  tr_regs : value;                          (* kernel_regularizer as given *)
+  tr_init_min : option Q; tr_init_max : option Q; tr_terms : Z;
+  tr_input : list (value * Z) }.            (* items of the input-shape dict (key, number of inputs);
+                                               a non-dict shape (None, n) is [("unconstrained", n)] *)
+
+Record cdf_raw := mkDR {
+  dr_keypoints : Z; dr_units : Z; dr_sparsity : Z; dr_dims : Z;
+  dr_mono : value; dr_init : value; dr_scaling : value; dr_activation : value; dr_reduction : value }.
+
+Record latreg_raw := mkGR { gr_sizes : list Z; gr_l1 : value; gr_l2 : value }.
+
+Record feature_raw := mkFR {
+  fr_buckets : value; fr_keypoints : value; fr_mono : value; fr_lattice_size : Z; fr_unimodality : value;
+  fr_trust : bool; fr_dominates : bool;     (* reflects_trust_in / dominates is not None *)
+  fr_reg_names : list string }.
+Record premade_raw := mkMR {
+  mr_kind : model_kind; mr_features : option (list feature_raw);
+  mr_lattices : value; mr_num_lattices : option Z; mr_param : value; mr_reg_names : list string;
+  mr_middle_dim : Z; mr_middle_mono : bool; mr_middle_calib : bool; mr_output_init : value }.
+
 Inductive cfg :=
 | CCanon (f : string) (args : list value) (r : result value)
 | CLatticeC (raw : lattice_raw)     (* LatticeConstraints(...) *)
@@ -38,7 +62,13 @@ Inductive cfg :=
 | CLinear (raw : linear_raw)        (* LinearConstraints(...) / Linear(...) + build *)
 | CPwl (raw : pwl_raw)              (* PWLCalibration(...) + build / PWLCalibrationConstraints *)
 | CCat (c : cat_cfg)                (* CategoricalCalibration(...) *)
-| CKfl (raw : kfl_raw).             (* KroneckerFactoredLattice(...) + build *)
+| CKfl (raw : kfl_raw)              (* KroneckerFactoredLattice(...) + build *)
+| CRtl (raw : rtl_raw)              (* RTL(...) + build *)
+| CCdf (raw : cdf_raw) (call_rejected : bool)   (* CDF(...) + build; ValueError from the first call *)
+| CLatReg (raw : latreg_raw)        (* lattice_layer.LaplacianRegularizer / TorsionRegularizer(...) *)
+| CPwlReg (l1 l2 : value) (cyclic : bool)       (* pwl_calibration_layer.*Regularizer(...) *)
+| CVerifyConfig (raw : premade_raw) (* premade_lib.verify_config(config) *)
+| CPremadeCtor (raw : premade_raw). (* tfl.premade.Calibrated*(config): calls verify_config first *)
 
 Record case := mk { c_cfg : cfg; c_obs : observed }.
 
@@ -162,6 +192,164 @@ Definition decide_kfl (r : kfl_raw) : option bool :=
   | CVal m => Some (accepts_kfl (mkK (kr_size r) (kr_units r) (kr_terms r) m (kr_dims r) (kr_omin r) (kr_omax r)))
   end.
 
+(* ---- glue of the second part ------------------------------------------------ *)
+Definition amt_of (v : value) : amt :=
+  match v with
+  | VFloat _ => AmtFloat
+  | VInt _ | VBool _ => AmtInt
+  | VList l | VTuple l => AmtSeq (zlen l)
+  | _ => AmtOther
+  end.
+Definition reg_name_known (v : value) : option bool :=
+  match v with
+  | VStr s => Some (String.eqb (lower s) "torsion" || String.eqb (lower s) "laplacian")
+  | _ => None                      (* name.lower() on a non-string: AttributeError *)
+  end.
+(* one regulariser given as a list / tuple xs; a wrong length makes the other
+   fields irrelevant *)
+Definition reg_entry_of (xs : list value) : option reg_entry :=
+  match xs with
+  | [n; a; b] => match reg_name_known n with Some k => Some (mkReg 3 k (amt_of a) (amt_of b)) | None => None end
+  | _ => Some (mkReg (zlen xs) false AmtOther AmtOther)
+  end.
+Fixpoint reg_entries_of (es : list value) : option (list reg_entry) :=
+  match es with
+  | [] => Some []
+  | (VList xs | VTuple xs) :: r =>
+      match reg_entry_of xs, reg_entries_of r with Some e, Some l => Some (e :: l) | _, _ => None end
+  | _ => None
+  end.
+(* `if isinstance(kernel_regularizer, list): if isinstance(kernel_regularizer[0], str): [kernel_regularizer]` *)
+Definition regs_of (v : value) : option rtl_regs :=
+  match v with
+  | VNone => Some RegNone
+  | VTuple xs => option_map RegTuple (reg_entry_of xs)
+  | VList [] => Some (RegList [])
+  | VList ((VStr _ :: _) as xs) => option_map (fun e => RegList [e]) (reg_entry_of xs)
+  | VList es => option_map RegList (reg_entries_of es)
+  | _ => None
+  end.
+
+Definition param_of (v : value) : rtl_param :=
+  if py_eq v (VStr "all_vertices") then ParamAll
+  else if py_eq v (VStr "kronecker_factored") then ParamKfl else ParamOther.
+Definition keras_initializer_names : list value :=
+  [VStr "random_uniform"; VStr "RandomUniform"; VStr "uniform"; VStr "zeros"; VStr "ones"; VStr "glorot_uniform"; VNone].
+Definition init_of (v : value) : init_id :=
+  if py_eq v (VStr "linear_initializer") then InitLinearExact
+  else if py_in v [VStr "LinearInitializer"; VStr "random_monotonic_initializer"; VStr "RandomMonotonicInitializer";
+                   VStr "random_uniform_or_linear_initializer"; VStr "RandomUniformOrLinearInitializer"]
+       then InitLatticeRanged
+  else if py_in v [VStr "kfl_random_monotonic_initializer"; VStr "KFLRandomMonotonicInitializer"] then InitKfl
+  else if py_in v keras_initializer_names then InitKeras
+  else InitUnknown.
+Definition dict_get (k : string) (d : list (value * Z)) : option Z :=
+  match filter (fun kv => py_eq (fst kv) (VStr k)) d with [] => None | kv :: _ => Some (snd kv) end.
+
+Definition decide_rtl (r : rtl_raw) : option bool :=
+  match regs_of (tr_regs r) with
+  | None => None
+  | Some regs =>
+      Some (accepts_rtl (mkRTL (tr_num r) (tr_rank r) (tr_size r) (tr_omin r) (tr_omax r)
+                               (py_in (tr_interp r) [VStr "hypercube"; VStr "simplex"])
+                               (param_of (tr_param r)) (init_of (tr_init r)) regs
+                               (tr_init_min r) (tr_init_max r) (tr_terms r)
+                               (forallb (fun kv => py_in (fst kv) [VStr "unconstrained"; VStr "increasing"]) (tr_input r))
+                               (dict_get "increasing" (tr_input r)) (dict_get "unconstrained" (tr_input r))))
+  end.
+
+Definition cdf_of (r : cdf_raw) (mono_ok : bool) : cdf_cfg :=
+  mkCDF (dr_keypoints r) (dr_units r) (dr_sparsity r) (dr_dims r) mono_ok
+        (py_in (dr_init r) keras_initializer_names)
+        (py_in (dr_scaling r) [VStr "fixed"; VStr "learned_shared"; VStr "learned_per_input"])
+        (py_in (dr_activation r) [VStr "relu6"; VStr "sigmoid"])
+        (py_in (dr_reduction r) [VStr "mean"; VStr "geometric_mean"; VStr "none"]).
+Definition decide_cdf (r : cdf_raw) : option cdf_cfg :=
+  match conv_scalar (canonicalize_monotonicity (dr_mono r) (VBool true)) with
+  | CStuck => None
+  | CReject => Some (cdf_of r false)
+  | CVal _ => Some (cdf_of r true)
+  end.
+Definition check_cdf (r : cdf_raw) (call_rejected : bool) (o : observed) : bool :=
+  match decide_cdf r with
+  | None => false
+  | Some c =>
+      match accepts_cdf c, o with
+      | true, Accepted => Bool.eqb (cdf_call_ok c) (negb call_rejected)
+      | false, Rejected => true
+      | _, _ => false
+      end
+  end.
+
+Definition decide_latreg (r : latreg_raw) : bool :=
+  accepts_lattice_regularizer (mkLRg (gr_sizes r) (amt_of (gr_l1 r)) (amt_of (gr_l2 r))).
+
+(* np.iterable over the universe; isinstance(x, (int, float)) *)
+Definition np_iterable (v : value) : bool := match v with VStr _ | VList _ | VTuple _ => true | _ => false end.
+Definition is_number (v : value) : bool := is_int v || is_float v.
+(* np.iterable(v) and all(isinstance(x, (int, float)) for x in v); the items of a str are str *)
+Definition numbers_ok (v : value) : bool :=
+  match v with
+  | VList l | VTuple l => forallb is_number l
+  | VStr s => String.eqb s ""
+  | _ => false
+  end.
+Definition int_of (v : value) : option Z := num_z v.
+Definition cat_elem_of (t : value) : cat_elem :=
+  match t with
+  | VList vs | VTuple vs => ElemVals (map int_of vs)
+  | VStr s => if String.eqb s "" then ElemVals [] else ElemVals [None]   (* its items are str, not int *)
+  | _ => ElemNotIterable
+  end.
+Definition cat_mono_of (v : value) : cat_mono :=
+  if negb (py_truthy v) || py_eq v (VStr "none") then CmFalsyOrNone
+  else match v with
+       | VList es | VTuple es => CmElems (map cat_elem_of es)
+       | VStr _ => CmElems [ElemVals [None]]
+       | _ => CmNotIterable
+       end.
+Definition calib_name (s : string) : bool := String.prefix "calib_" s.
+Definition feature_of (f : feature_raw) : option feature_cfg :=
+  match (match fr_buckets f with VNone => Some 0%Z | v => num_z v end) with
+  | None => None
+  | Some nb =>
+      Some (mkF nb (numbers_ok (fr_keypoints f)) (cat_mono_of (fr_mono f)) (fr_lattice_size f)
+                (negb (py_eq (fr_unimodality f) (VStr "none")) && negb (py_eq (fr_unimodality f) (VInt 0)))
+                (fr_trust f) (fr_dominates f) (map calib_name (fr_reg_names f)))
+  end.
+Fixpoint features_of (fs : list feature_raw) : option (list feature_cfg) :=
+  match fs with
+  | [] => Some []
+  | f :: r => match feature_of f, features_of r with Some x, Some l => Some (x :: l) | _, _ => None end
+  end.
+Definition lattice_names_ok (l : value) : bool :=
+  match l with
+  | VList xs | VTuple xs => forallb is_str xs
+  | VStr _ => true
+  | _ => false
+  end.
+Definition lattices_of (v : value) : lattices_spec :=
+  if py_eq v (VStr "rtl_layer") then LatRtl
+  else match v with VList ls => LatList (map lattice_names_ok ls) | _ => LatOther end.
+Definition decide_premade (r : premade_raw) : option bool :=
+  match (match mr_features r with None => Some None | Some fs => option_map Some (features_of fs) end) with
+  | None => None
+  | Some fs =>
+      Some (accepts_verify_config
+              (mkPM (mr_kind r) fs (lattices_of (mr_lattices r)) (mr_num_lattices r)
+                    (py_eq (mr_param r) (VStr "kronecker_factored")) (map calib_name (mr_reg_names r))
+                    (mr_middle_dim r) (mr_middle_mono r) (mr_middle_calib r) (numbers_ok (mr_output_init r))))
+  end.
+(* the premade constructors call verify_config before anything else: what it
+   rejects they reject; what it accepts the layers may still reject *)
+Definition agrees_one_sided (d : option bool) (o : observed) : bool :=
+  match d, o with
+  | Some false, Rejected => true
+  | Some false, Accepted => false
+  | Some true, _ => true
+  | None, _ => false
+  end.
+
 Definition agrees (d : option bool) (o : observed) : bool :=
   match d, o with
   | Some true, Accepted => true
@@ -178,4 +366,10 @@ Definition check (c : case) : bool :=
   | CPwl raw => agrees (decide_pwl raw) (c_obs c)
   | CCat cc => agrees (Some (accepts_categorical cc)) (c_obs c)
   | CKfl raw => agrees (decide_kfl raw) (c_obs c)
+  | CRtl raw => agrees (decide_rtl raw) (c_obs c)
+  | CCdf raw call_rejected => check_cdf raw call_rejected (c_obs c)
+  | CLatReg raw => agrees (Some (decide_latreg raw)) (c_obs c)
+  | CPwlReg l1 l2 cyc => agrees (Some (accepts_pwl_regularizer (amt_of l1) (amt_of l2) cyc)) (c_obs c)
+  | CVerifyConfig raw => agrees (decide_premade raw) (c_obs c)
+  | CPremadeCtor raw => agrees_one_sided (decide_premade raw) (c_obs c)
   end.
